@@ -114,6 +114,23 @@ def h1_config(ck, hb, db, ref, job, work, rng, phases, ctx):
             before = []
         elif phase == "warm":
             before = B.snapshot_lines(cache, canon, ref)
+        elif phase.startswith("killed"):
+            # the cache a really killed build leaves behind (kill point drawn from the cold recording)
+            cache = os.path.join(work, "cache-%s-%s" % (tag, phase))
+            B.rmtree(cache)
+            canon = B.Canon(cache, names)
+            pts = [p for p in B.kill_points(info["recs"], info["cache"], B.KILL_CALLS) if p[2]] if info["recs"] else []
+            if not pts:
+                continue
+            call, n, _, what = rng.choice(pts)
+            B.run_killed(hb, cache, job.args(), call, n, os.path.join(work, "trace-%s-%s.kill" % (tag, phase)))
+            time.sleep(0.05)
+            label = "%s at %s#%d" % (phase, call, n)
+            bad = B.cache_good(cache, ref)
+            if bad:
+                ck.oracle_violation("after kill -9 at the builder's %s #%d a final-named file is not a complete artefact: %s"
+                                    % (call, n, "; ".join(bad[:3])), "kill %s %s %d %s %d" % (job.mode, job.kind, job.C, call, n), name="kill")
+            before = B.snapshot_lines(cache, canon, ref)
         else:
             # a Good state between empty and complete: delete a random subset of the final-named files
             full = os.path.join(work, "cache-" + tag)
@@ -307,13 +324,13 @@ def main(argv):
         else:
             C1, C2 = rng.randint(2, 60), rng.randint(61, 120)
             if thorough:
-                plan = [(Job("Serial", "s", C1, work), ["cold", "warm", "partial1", "partial2", "debris1", "debris2"]),
-                        (Job("OpenMP", "f", C2, work), ["cold", "warm", "partial1", "partial2", "debris1", "debris2"]),
-                        (Job("Serial", "f", C1 + 1, work), ["cold", "warm", "partial1", "debris1"]),
-                        (Job("OpenMP", "s", C2 + 1, work), ["cold", "warm", "partial1", "debris1"])]
+                plan = [(Job("Serial", "s", C1, work), ["cold", "warm", "partial1", "partial2", "debris1", "debris2", "killed1", "killed2"]),
+                        (Job("OpenMP", "f", C2, work), ["cold", "warm", "partial1", "partial2", "debris1", "debris2", "killed1", "killed2"]),
+                        (Job("Serial", "f", C1 + 1, work), ["cold", "warm", "partial1", "debris1", "killed1"]),
+                        (Job("OpenMP", "s", C2 + 1, work), ["cold", "warm", "partial1", "debris1", "killed1"])]
             else:
                 plan = [(Job("Serial", "s", C1, work), ["cold", "warm", "debris1"]),
-                        (Job("OpenMP", "f", C2, work), ["cold", "partial1"])]
+                        (Job("OpenMP", "f", C2, work), ["cold", "partial1", "killed1"])]
             with ThreadPoolExecutor(max_workers=len(plan)) as ex:
                 infos = list(ex.map(lambda jp: h1_config(ck, hb, db, ref, jp[0], work, random.Random(rng.random()), jp[1], ctx), plan))
             # corpus: the F35 window, located in this run's own recording
